@@ -4,13 +4,32 @@
     see models/c15_linkage.py) x use position x {-fcommon,-fno-common} x type: `readelf -s -S` of chibicc's object
     is checked against CONSTRAINTS derived from C11 6.2.2/6.9.2/6.7.4 + the option (never against gcc's table);
     the unit is then linked with a gcc-compiled companion and run (expected output from the model, confirmed by
-    a gcc twin of the unit - disagreement = skip).
-(b) every call graph on <= 3 static inline functions x every root set x 4 root kinds x placement:
-    emitted set == reachable set (readelf), program links and prints the model's value.
+    a gcc twin of the unit - disagreement = skip).  Types include two that are completed AFTER the declaration:
+    `int v[]` (every mask of incomplete/complete declarations in the sequence: completed by another declaration,
+    by an initializer, or to one element at the end of the unit, 6.9.2p2) and `struct S v; ... struct S {...};`.
+(b) every call graph on <= 3 static inline functions x every root set x 5 root kinds (call, file-scope initializer,
+    static-local initializer, call from an unreferenced static inline function, static-local initializer INSIDE an
+    unreferenced static inline function) x placement: emitted set == reachable set (readelf), program links and
+    prints the model's value.
 (c) every 2-unit (and 3-unit) link set, unit = object form x function form: link succeeds iff the model says
     well-formed; output == model == gcc twin.
 (d) address formation programs x {non-PIC, -fPIC exe, -fPIC -shared + main (non-PIC and PIC), -static}: output
-    identical in all configurations and equal to the gcc twin's.
+    identical in all configurations and equal to the gcc twin's.  Includes one two-thread program per thread-local
+    declaration form (file scope external/static, block scope static; initialised/zero): each thread sees its own
+    copy in the library and in the main program.
+(e) string-literal objects, judged on CONTENT only (sharing of storage is unspecified, 6.4.5p7, and never judged):
+    alphabet = {"", u8, L, u, U} x every text of length <= 3 over {a, b, NUL} (40 texts: equal literals, prefixes of
+    each other, literals equal up to an embedded NUL at the first/middle/last position, literals that differ only in
+    length, empty literals, the same text in every encoding).
+    (e1) every ordered PAIR over the alphabet (quick: 5 kinds x texts of length <= 2, plus all 40 texts as plain
+    char literals) and every ordered TRIPLE over a sub-alphabet (quick: 7 char literals over {a, NUL}; thorough:
+    {"", L} x length <= 2), each tuple ALONE in its translation unit, in every context of E_CONTEXTS (pointer
+    initialiser at file scope / static local / automatic / thread-local, pointer into the literal, array initialiser
+    of size n, n+2, n-1 at file scope / static local / automatic, subscripted literal, sizeof, tables, struct
+    members, address comparison): every byte up to sizeof is read back by a gcc-compiled reader and compared with
+    the model; a gcc twin of the same units confirms the model.  Every single literal also as -fPIC object in a PIE.
+    (e2) the pairs of a core alphabet packed ~100 units per program, half of them in the library unit and half in
+    the main unit, built by chibicc in every configuration of part (d).
 """
 import itertools, json, os, re, shutil, sys, tempfile, time
 
@@ -30,11 +49,19 @@ TYPES = {  # key: (typedef text, is_array, size, align)
     "c20": ("typedef char TT[20];", True, 20, 1),
     "s3":  ("typedef short TT[3];", True, 6, 2),
     "a32": ("typedef int TT;", False, 4, 32),              # every defining declaration carries _Alignas(32)
+    # types completed AFTER (some of) the declarations of the object:
+    "a3":  ("typedef int TT[3]; typedef int TI[];", True, 12, 4),   # case["inc"]: per declaration 'i' = TI (int[]), 'c' = TT
+    "sinc": ("struct S; typedef struct S TT;", False, 24, 8),       # struct S is completed after the last declaration
 }
+SINC_COMPLETION = "struct S { long a[3]; };"
+SINC_FORMS = ("E", "T", "tE", "tT")                       # no initializer, no internal linkage (6.9.2p3) with an incomplete type
+FILE_FORMS = [k for k in L.OBJ_ORDER if L.OBJ_FORMS[k][0] == "file"]
 
 
-def type_header(tk):
+def type_header(tk, complete=True):
     td, arr, _, _ = TYPES[tk]
+    if tk == "sinc":
+        return td + "\n" + (SINC_COMPLETION + "\n" if complete else "") + "#define RD(x) ((int)(x).a[0])\n#define WR(x,y) ((x).a[0]=(y))\n"
     if arr:
         return td + "\n#define RD(x) ((int)(x)[0])\n#define WR(x,y) ((x)[0]=(y))\n"
     return td + "\n#define RD(x) ((int)(x))\n#define WR(x,y) ((x)=(y))\n"
@@ -76,9 +103,9 @@ def write(path, text):
 
 
 # ================================================================================================ part (a)
-def a_obj_source(seq, use, tk):
+def a_obj_source(seq, use, tk, inc=None):
     """use: 'none' | 'end' | 'mid'(after declaration 0)"""
-    lines = [type_header(tk)]
+    lines = [type_header(tk, complete=False)]
     usefn = "int u_use(void) { return RD(v); }\nvoid u_set(int x) { WR(v, x); }"
     blk = set()
     for i, k in enumerate(seq):
@@ -86,7 +113,8 @@ def a_obj_source(seq, use, tk):
         t = "_Thread_local " if tls else ""
         if scope == "file":
             al = "_Alignas(32) " if tk == "a32" and sc != "extern" else ""
-            lines.append("%s%s%sTT v%s;" % (al, sc + " " if sc else "", t, " = {1}" if init else ""))
+            tt = "TI" if inc and inc[i] == "i" else "TT"
+            lines.append("%s%s%s%s v%s;" % (al, sc + " " if sc else "", t, tt, (" = {1, 0, 0}" if tk == "a3" else " = {1}") if init else ""))
         elif sc == "extern":
             lines.append("int u_blk%d(void) { extern %sTT v; return RD(v); }" % (i, t))
             blk.add(i)
@@ -95,6 +123,8 @@ def a_obj_source(seq, use, tk):
             blk.add(i)
         if use == "mid" and i == 0:
             lines.append(usefn)
+    if tk == "sinc":
+        lines.append(SINC_COMPLETION)
     if use == "end":
         lines.append(usefn)
     if use == "none":
@@ -111,7 +141,7 @@ def a_obj_companion(tk, tls, mode):
     if mode == "def":
         s += ("_Alignas(32) " if tk == "a32" else "") + t + "TT v = {7};\n"
     elif mode == "ext":
-        s += "extern " + t + "TT v;\n"
+        s += "extern " + t + ("TI" if tk == "a3" else "TT") + " v;\n"
     if mode == "none":
         s += "int comp_rd(void) { return -2; }\nvoid comp_wr(int x) { }\n"
     else:
@@ -242,8 +272,8 @@ def companion(cache, name, text):
     return o
 
 
-def link_run(objs, exe, extra=()):
-    st, out, err = px(["gcc", "-no-pie", "-o", exe] + list(objs) + [NOX] + list(extra))
+def link_run(objs, exe, extra=(), pie=False):
+    st, out, err = px(["gcc", "-pie" if pie else "-no-pie", "-o", exe] + list(objs) + [NOX] + list(extra))
     if st == "timeout":
         return "timeout", ""
     if st != 0:
@@ -270,10 +300,26 @@ def eval_a(chibicc, wd, cache, case):
         if use != "none" and (not m["has_file"] or (use == "mid" and m["first_file"] != 0)):
             res["status"] = "skip-invalid"                   # no visible declaration at the point of use
             return res
-        src = a_obj_source(seq, use, tk)
+        inc = case.get("inc")
+        elems = "N"
+        if tk == "a3":
+            ok, why, elems = L.obj_incomplete_array(seq, inc)
+            if not ok:
+                res["status"] = "skip-invalid"
+                return res
+        if tk == "sinc" and (use == "mid" or [k for k in seq if k not in SINC_FORMS]):
+            res["status"] = "skip-invalid"                   # the type is incomplete at that point
+            return res
+        src = a_obj_source(seq, use, tk, inc)
         mode, referenced, expected = a_obj_expected(seq, use, m)
         comp = companion(cache, "obj_%s_%d_%s" % (tk, m["tls"], mode), a_obj_companion(tk, m["tls"], mode))
         res["cls"] = L.obj_class(m, fcommon)
+        if tk == "a3":
+            res["cls"] += "|array-%s" % ("completed-by-another-declaration" if elems == "N" and "c" in inc else
+                                         "completed-by-initializer" if elems == "N" else
+                                         "incomplete-at-end-of-unit" if elems == 1 else "incomplete-no-definition")
+        if tk == "sinc":
+            res["cls"] += "|struct-completed-after-declaration"
         res["nontrivial"] = len(seq) > 1 or m["defkind"] != "none"
     else:
         m = L.fn_model(seq)
@@ -335,6 +381,8 @@ def eval_a(chibicc, wd, cache, case):
         res["devs"].append("unexpected-global-definition")
     if kind == "obj":
         _, arr, size, align = TYPES[tk]
+        if tk == "a3" and elems == 1:
+            size = 4                          # int[] completed to one element at the end of the unit
         if arr and size >= 16:
             align = max(align, 16)            # psABI 3.1.2: array variables of >= 16 bytes are 16-byte aligned
         res["devs"] += L.check_object_symbol("v", m, referenced, fcommon, size, align, syms, secs)
@@ -367,7 +415,7 @@ def _a_batch(args):
 
 
 # ================================================================================================ part (b)
-ROOT_KINDS = ["call", "file-init", "static-local-init", "dead-inline"]
+ROOT_KINDS = ["call", "file-init", "static-local-init", "dead-inline", "dead-inline-static-local-init"]
 
 
 def b_source(case, idx=0, pfx=""):
@@ -387,8 +435,11 @@ def b_source(case, idx=0, pfx=""):
                "unsigned e%d(int d) { unsigned (**t)(int) = t%d; %s }" % (idx, idx, loop)]
     elif kind == "static-local-init":
         ent = ["unsigned e%d(int d) { static unsigned (*t[])(int) = { %s }; %s }" % (idx, tab, loop)]
-    else:
+    elif kind == "dead-inline":
         ent = ["static inline unsigned u%d(int d) { unsigned s = 0; %s return s; }" % (idx, " ".join("s = s * 31u + %s%d(d);" % (F, r) for r in roots)),
+               "unsigned e%d(int d) { return 12345u + d; }" % idx]
+    else:       # the only references sit in the initializer of a static local of a function that is itself unreferenced
+        ent = ["static inline unsigned u%d(int d) { static unsigned (*t[])(int) = { %s }; %s }" % (idx, tab, loop),
                "unsigned e%d(int d) { return 12345u + d; }" % idx]
     parts = protos + (ent + defs if place == "before" else defs + ent)
     return "\n".join(parts) + "\n"
@@ -396,9 +447,9 @@ def b_source(case, idx=0, pfx=""):
 
 def b_model(case):
     n, edges, roots, kind = case["n"], set(map(tuple, case["edges"])), case["roots"], case["kind"]
-    live = L.reachable(n, edges, roots) if kind != "dead-inline" else set()
+    live = L.reachable(n, edges, roots) if not kind.startswith("dead-inline") else set()
     D = 3
-    if kind == "dead-inline":
+    if kind.startswith("dead-inline"):
         val = 12345 + D
     else:
         val = 0
@@ -484,10 +535,14 @@ def _b_batch(args):
         if st == "ok" and obj and "live-function-not-emitted" not in devs:
             tolink.append((idx, obj, b_model(case)[1]))
     GRP = 40
-    for g in range(0, len(tolink), GRP):
-        r = b_link(wd, tolink[g:g + GRP])
+    # units whose symbol table already deviates are linked alone (a failing member would make the whole group bisect)
+    suspect = [t for t in tolink if res[t[0]][2]]
+    tolink = [t for t in tolink if not res[t[0]][2]]
+    groups = [[t] for t in suspect] + [tolink[g:g + GRP] for g in range(0, len(tolink), GRP)]
+    for grp in groups:
+        r = b_link(wd, grp)
         if r == "timeout":
-            for i, _, _ in tolink[g:g + GRP]:
+            for i, _, _ in grp:
                 res[i][1] = "harness-timeout"
             continue
         for i, d in r.items():
@@ -540,16 +595,25 @@ def b_group_eval(chibicc, wd, cases):
             devs[k] = ["live-function-not-emitted"]
         elif emitted[k] - live:
             devs[k].append("dead-function-emitted")
-    if not any(devs):
+    clean = [k for k in range(len(cases)) if not devs[k]]
+    if clean:
+        if len(clean) < len(cases):
+            # the graphs whose symbols deviate are re-examined alone by the caller; the others are still linked and run
+            write(u, "".join(b_source(cases[k], idx=k, pfx="g%d_" % k) for k in clean))
+            st, out, err = px([chibicc, "-c", "-o", o, u])
+            if st == "timeout":
+                return [("harness-timeout", [])] * len(cases)
+            if st != 0:
+                return None
         drv = os.path.join(wd, "drv.c")
-        write(drv, b_driver(list(range(len(cases)))))
+        write(drv, b_driver(clean))
         st, out = link_run([drv, o], os.path.join(wd, "prog"))
         if st == "timeout":
             return [("harness-timeout", [])] * len(cases)
         if st != "ok":
             return None
         got = dict(l.split() for l in out.splitlines() if len(l.split()) == 2)
-        for k in range(len(cases)):
+        for k in clean:
             if got.get(str(k)) != str(vals[k]):
                 devs[k].append("program-output-differs")
     return [("ok", sorted(set(d))) for d in devs]
@@ -799,7 +863,30 @@ def d_programs():
           "int main(void) {\n  printf(\"%d\\n\", l_get());\n  cv = 3; carr[9] = 4; printf(\"%d\\n\", l_get());\n"
           "  l_set(8); printf(\"%d %d\\n\", cv, carr[9]);\n  return 0;\n}\n")
     progs["common-in-both-units"] = (Lc, Mc)
+    # ---- thread storage duration: every thread-local declaration form, one object in the library and one in the main
+    # program, each bumped from the initial thread and from a second thread (a fresh copy per thread, 6.2.4p4)
+    for name, (filedecl, blockdecl) in D_TLS_FORMS.items():
+        Lc = ("%sint l_bump(void) { %sg += 2; return g; }\n" % (filedecl % "g", blockdecl % "g"))
+        Mc = ("#include <stdio.h>\ntypedef unsigned long pthread_t;\n"
+              "int pthread_create(pthread_t *, const void *, void *(*)(void *), void *); int pthread_join(pthread_t, void **);\n"
+              "int l_bump(void);\n%sstatic int m_bump(void) { %smg += 3; return mg; }\n"
+              "static void *th(void *a) { int *r = a; r[0] = l_bump(); r[1] = l_bump(); r[2] = m_bump(); r[3] = m_bump(); return 0; }\n"
+              "int main(void) {\n  int r[4]; pthread_t t;\n  int a = l_bump(); int b = l_bump(); int c = m_bump();\n"
+              "  printf(\"main %%d %%d %%d\\n\", a, b, c);\n  if (pthread_create(&t, 0, th, r)) return 2;\n  if (pthread_join(t, 0)) return 3;\n"
+              "  printf(\"thread %%d %%d %%d %%d\\n\", r[0], r[1], r[2], r[3]);\n  a = l_bump(); c = m_bump();\n"
+              "  printf(\"main %%d %%d\\n\", a, c);\n  return 0;\n}\n" % (filedecl % "mg", blockdecl % "mg"))
+        progs["tls-per-thread-" + name] = (Lc, Mc)
     return progs
+
+
+D_TLS_FORMS = {       # name -> (file-scope declaration, block-scope declaration) with %s = the object's name
+    "file-extern-linkage-init": ("_Thread_local int %s = 13;\n", "%.0s"),
+    "file-extern-linkage-zero": ("_Thread_local int %s;\n", "%.0s"),
+    "file-static-init": ("static _Thread_local int %s = 13;\n", "%.0s"),
+    "file-static-zero": ("static _Thread_local int %s;\n", "%.0s"),
+    "block-static-init": ("%.0s", "static _Thread_local int %s = 13; "),
+    "block-static-zero": ("%.0s", "static _Thread_local int %s; "),
+}
 
 
 D_CONFIGS = ["nonpic", "pic-exe", "static", "static-pic", "shared+nonpic-main", "shared+pic-main", "nonpic-fno-common",
@@ -870,6 +957,359 @@ def _d_one(args):
     return name, cfg, "ok", None, g1[1]
 
 
+# ================================================================================================ part (e)
+# String-literal objects.  A unit is one translation unit that uses a tuple of literals (kind prefix, text) in every
+# context of E_CONTEXTS; every byte of every literal is read back (through each pointer / array, up to sizeof, i.e.
+# past embedded NULs) by a driver and compared with the model (models/c15_linkage.py str_bytes) - confirmed by a gcc
+# twin of the same unit.  Whether two literals share storage is never judged (C11 6.4.5p7).
+E_CONTEXTS = ["gp file-scope pointer initialiser", "gm file-scope pointer to the last element (&X[n-1])",
+              "tp _Thread_local pointer initialiser", "ga file-scope array T[]", "gb file-scope array T[n+2] (zero fill)",
+              "gc file-scope array T[n-1] (terminator dropped)", "sp static-local pointer", "ap automatic pointer",
+              "sa static-local array T[]", "aa automatic array T[]", "ab automatic array T[n+2]", "ix subscripted literal X[i]",
+              "sz sizeof X", "gt file-scope table of pointers to all literals of the tuple", "st static-local table",
+              "gs file-scope struct { T0 a[n0]; const T1 *p; }", "eq address comparison X0 == X1 (judged only as 'must differ' when contents differ)"]
+E_CTXGROUP = {"gp": "pointer", "gm": "pointer", "tp": "pointer", "sp": "pointer", "ap": "pointer", "gt": "pointer", "st": "pointer",
+              "gsp": "pointer", "ga": "array", "gb": "array", "gc": "array", "sa": "array", "aa": "array", "ab": "array",
+              "gsa": "array", "ix": "subscript", "sz": "sizeof", "eq": "address-comparison"}
+
+
+def e_unit(P, lits):
+    """-> (decls, defs, calls, expected): decls = declarations shared by the unit and the reader, defs = the unit's
+    definitions, calls = C statements of the reader, expected = the lines the reader must print"""
+    decls, defs, calls, exp = [], [], [], []
+
+    def dump(tag, expr, data):
+        calls.append('dump("%s %s", %s, %d);' % (P, tag, expr, len(data)))
+        exp.append("%s %s %s" % (P, tag, data.hex()))
+
+    for k, (kind, text) in enumerate(lits):
+        T, esz = L.STR_KINDS[kind]
+        X = L.str_spelling(kind, text)
+        n = L.str_nelem(text)
+        own = L.str_bytes(kind, text)
+        v = "%s_%%s%d" % (P, k)
+        decls += ["extern const %s *%s, *%s;" % (T, v % "gp", v % "gm"), "extern _Thread_local const %s *%s;" % (T, v % "tp"),
+                  "extern %s %s[%d], %s[%d];" % (T, v % "ga", n, v % "gb", n + 2),
+                  "const void *%s(void), *%s(void), *%s(void);" % (v % "sp", v % "ap", v % "sa"),
+                  "void %s(unsigned char *), %s(unsigned char *);" % (v % "aa", v % "ab"),
+                  "long %s(int); unsigned long %s(void);" % (v % "ix", v % "sz")]
+        copy = "for (unsigned i = 0; i < sizeof a; i++) o[i] = ((unsigned char *)a)[i];"
+        defs += ["const %s *%s = %s;" % (T, v % "gp", X), "const %s *%s = &%s[%d];" % (T, v % "gm", X, n - 1),
+                 "_Thread_local const %s *%s = %s;" % (T, v % "tp", X),
+                 "%s %s[] = %s;" % (T, v % "ga", X), "%s %s[%d] = %s;" % (T, v % "gb", n + 2, X),
+                 "const void *%s(void) { static const %s *p = %s; return p; }" % (v % "sp", T, X),
+                 "const void *%s(void) { const %s *p = %s; return p; }" % (v % "ap", T, X),
+                 "const void *%s(void) { static %s a[] = %s; return a; }" % (v % "sa", T, X),
+                 "void %s(unsigned char *o) { %s a[] = %s; %s }" % (v % "aa", T, X, copy),
+                 "void %s(unsigned char *o) { %s a[%d] = %s; %s }" % (v % "ab", T, n + 2, X, copy),
+                 "long %s(int i) { return %s[i]; }" % (v % "ix", X),
+                 "unsigned long %s(void) { return sizeof %s; }" % (v % "sz", X)]
+        dump("gp%d" % k, v % "gp", own)
+        dump("gm%d" % k, "%s - %d" % (v % "gm", n - 1), own)
+        dump("tp%d" % k, v % "tp", own)
+        dump("ga%d" % k, v % "ga", own)
+        dump("gb%d" % k, v % "gb", L.str_bytes(kind, text, n + 2))
+        if n > 1:
+            decls.append("extern %s %s[%d];" % (T, v % "gc", n - 1))
+            defs.append("%s %s[%d] = %s;" % (T, v % "gc", n - 1, X))
+            dump("gc%d" % k, v % "gc", L.str_bytes(kind, text, n - 1))
+        dump("sp%d" % k, "%s()" % (v % "sp"), own)
+        dump("ap%d" % k, "%s()" % (v % "ap"), own)
+        dump("sa%d" % k, "%s()" % (v % "sa"), own)
+        calls.append("%s(buf); " % (v % "aa") + 'dump("%s aa%d", buf, %d);' % (P, k, len(own)))
+        exp.append("%s aa%d %s" % (P, k, own.hex()))
+        calls.append("%s(buf); " % (v % "ab") + 'dump("%s ab%d", buf, %d);' % (P, k, len(own) + 2 * esz))
+        exp.append("%s ab%d %s" % (P, k, L.str_bytes(kind, text, n + 2).hex()))
+        calls.append('printf("%s ix%d"); for (int i = 0; i < %d; i++) printf(" %%ld", %s(i)); printf("\\n");' % (P, k, n, v % "ix"))
+        exp.append("%s ix%d %s" % (P, k, " ".join(str(ord(c)) for c in text + "\0")))
+        calls.append('printf("%s sz%d %%lu\\n", %s());' % (P, k, v % "sz"))
+        exp.append("%s sz%d %d" % (P, k, len(own)))
+    m = len(lits)
+    tab = ", ".join(L.str_spelling(kd, tx) for kd, tx in lits)
+    decls += ["extern const void *%s_gt[%d];" % (P, m), "const void *%s_st(int);" % P]
+    defs += ["const void *%s_gt[] = { %s };" % (P, tab),
+             "const void *%s_st(int i) { static const void *const t[] = { %s }; return t[i]; }" % (P, tab)]
+    for k, (kind, text) in enumerate(lits):
+        dump("gt%d" % k, "%s_gt[%d]" % (P, k), L.str_bytes(kind, text))
+        dump("st%d" % k, "%s_st(%d)" % (P, k), L.str_bytes(kind, text))
+    if m >= 2:
+        (k0, t0), (k1, t1) = lits[0], lits[1]
+        n0 = L.str_nelem(t0)
+        decls += ["struct %s_S { %s a[%d]; const %s *p; }; extern struct %s_S %s_gs;" % (P, L.STR_KINDS[k0][0], n0, L.STR_KINDS[k1][0], P, P),
+                  "int %s_eq(void);" % P]
+        defs += ["struct %s_S %s_gs = { %s, %s };" % (P, P, L.str_spelling(k0, t0), L.str_spelling(k1, t1)),
+                 "int %s_eq(void) { return (const void *)%s == (const void *)%s; }" % (P, L.str_spelling(k0, t0), L.str_spelling(k1, t1))]
+        dump("gsa", "%s_gs.a" % P, L.str_bytes(k0, t0))
+        dump("gsp", "%s_gs.p" % P, L.str_bytes(k1, t1))
+        if L.str_may_alias(L.str_bytes(k0, t0), L.str_bytes(k1, t1)):
+            calls.append('%s_eq(); printf("%s eq -\\n");' % (P, P))          # unspecified: evaluated, not judged
+            exp.append("%s eq -" % P)
+        else:
+            calls.append('printf("%s eq %%d\\n", %s_eq());' % (P, P))
+            exp.append("%s eq 0" % P)
+    return decls, defs, calls, exp
+
+
+E_READER = ("#include <stdio.h>\nstatic unsigned char buf[256];\n"
+            "static void dump(const char *tag, const void *p, unsigned n) {\n  const unsigned char *b = p;\n"
+            "  printf(\"%s \", tag);\n  for (unsigned i = 0; i < n; i++) printf(\"%02x\", b[i]);\n  printf(\"\\n\");\n}\n")
+
+
+def e_unit_source(P, lits):
+    decls, defs, calls, exp = e_unit(P, lits)
+    return "\n".join(decls + defs) + "\n"
+
+
+def e_reader_source(units, hosted=()):
+    """reader (with main) for the units [(P, lits)]; units in `hosted` are defined in the reader's own translation unit"""
+    s = E_READER
+    body = []
+    for P, lits in units:
+        decls, defs, calls, exp = e_unit(P, lits)
+        s += "\n".join(decls + (defs if P in hosted else [])) + "\n"
+        body.append("static void show_%s(void) {\n  %s\n}\n" % (P, "\n  ".join(calls)))
+    return s + "".join(body) + "int main(void) {\n" + "".join("  show_%s();\n" % P for P, _ in units) + "  return 0;\n}\n"
+
+
+def e_expected(units):
+    return dict((P, e_unit(P, lits)[3]) for P, lits in units)
+
+
+def e_split(out):
+    got = {}
+    for line in out.splitlines():
+        got.setdefault(line.split(" ", 1)[0], []).append(line)
+    return got
+
+
+def e_deviations(P, lits, got_lines, exp_lines):
+    """deviation classes of one unit: which context group shows wrong content"""
+    if got_lines == exp_lines:
+        return []
+    got = dict(l.split(" ", 2)[1:] if l.count(" ") >= 2 else (l, "") for l in got_lines)
+    devs = set()
+    for l in exp_lines:
+        _, tag, val = l.split(" ", 2)
+        if got.get(tag) != val:
+            grp = E_CTXGROUP[tag.rstrip("0123456789")]
+            devs.add("%s-%s" % (grp, "missing" if tag not in got else
+                                "size-differs" if grp == "sizeof" else
+                                "compares-equal-with-different-contents" if grp == "address-comparison" else "content-differs"))
+    return sorted(devs) or ["output-differs"]
+
+
+def e_eval(chibicc, wd, units, pic=False):
+    """units alone in their translation units, linked into one program with a gcc-compiled reader.
+    -> {P: (status, [deviations], detail)}"""
+    res = {}
+    exp = e_expected(units)
+    for P, lits in units:
+        write(os.path.join(wd, P + ".c"), e_unit_source(P, lits))
+    write(os.path.join(wd, "rd.c"), e_reader_source(units))
+    write(os.path.join(wd, "twin.c"), "".join('#include "%s.c"\n' % P for P, _ in units))
+    gflags = ["gcc", "-std=c11", "-pedantic-errors", "-O0", "-w"]
+    for src in ("rd", "twin"):
+        st, out, err = px(gflags + ["-c", "-o", os.path.join(wd, src + ".o"), os.path.join(wd, src + ".c")])
+        if st == "timeout":
+            return dict((P, ("harness-timeout", [], "")) for P, _ in units)
+        if st != 0:
+            if len(units) == 1 and src == "twin":
+                return {units[0][0]: ("skip-ref-rejected", [], err[-300:])}
+            if src == "rd":
+                raise core.HarnessError("string-literal reader does not compile: " + err[-500:])
+            return e_halves(chibicc, wd, units, pic)
+    gs, gout = link_run([os.path.join(wd, "rd.o"), os.path.join(wd, "twin.o")], os.path.join(wd, "p_gcc"))
+    if gs == "timeout":
+        return dict((P, ("harness-timeout", [], "")) for P, _ in units)
+    if gs != "ok":
+        if len(units) > 1:
+            return e_halves(chibicc, wd, units, pic)
+        return {units[0][0]: ("skip-oracle-disagreement", [], "gcc twin: %s %s" % (gs, gout[-200:]))}
+    ggot = e_split(gout)
+    judged = []
+    for P, lits in units:
+        if ggot.get(P) != exp[P]:
+            res[P] = ("skip-oracle-disagreement", [], "gcc twin prints %r, model %r" % (ggot.get(P), exp[P]))
+        else:
+            judged.append((P, lits))
+    objs = []
+    rejected = set()
+    for P, lits in units:
+        o = os.path.join(wd, P + ".o")
+        st, out, err = px([chibicc] + (["-fPIC"] if pic else []) + ["-c", "-o", o, os.path.join(wd, P + ".c")])
+        if st == "timeout":
+            return dict((P, ("harness-timeout", [], "")) for P, _ in units)
+        if st != 0:
+            rejected.add(P)
+            if P not in res:
+                res[P] = ("ok", ["valid-unit-rejected"], err[-600:])
+    if rejected:
+        if len(units) > 1:
+            r2 = e_eval(chibicc, wd, [u for u in units if u[0] not in rejected], pic)
+            r2.update(dict((P, res[P]) for P in rejected))
+            return r2
+        return res
+    cs, cout = link_run([os.path.join(wd, "rd.o")] + [os.path.join(wd, P + ".o") for P, _ in units], os.path.join(wd, "p_cc"), pie=pic)
+    if cs == "timeout":
+        return dict((P, ("harness-timeout", [], "")) for P, _ in units)
+    if cs != "ok":
+        if len(units) > 1:
+            return e_halves(chibicc, wd, units, pic)
+        P = units[0][0]
+        if P not in res:
+            res[P] = ("ok", ["link-fails" if cs == "link-fail" else "program-" + cs], cout[-600:])
+        return res
+    cgot = e_split(cout)
+    for P, lits in judged:
+        devs = e_deviations(P, lits, cgot.get(P, []), exp[P])
+        res[P] = ("ok", devs, "got:\n%s\nexpected:\n%s" % ("\n".join(cgot.get(P, [])), "\n".join(exp[P])) if devs else "")
+    return res
+
+
+def e_halves(chibicc, wd, units, pic):
+    h = len(units) // 2
+    r = e_eval(chibicc, wd, units[:h], pic)
+    r.update(e_eval(chibicc, wd, units[h:], pic))
+    return r
+
+
+def _e_batch(args):
+    chibicc, wd, groups = args
+    os.makedirs(wd, exist_ok=True)
+    out = []
+    for tuples, pic in groups:
+        units = [("s%d" % i, lits) for i, lits in enumerate(tuples)]
+        r = e_eval(chibicc, wd, units, pic)
+        for P, lits in units:
+            st, devs, detail = r[P]
+            out.append((lits, pic, st, devs, detail))
+        for f in os.listdir(wd):
+            try:
+                os.unlink(os.path.join(wd, f))
+            except OSError:
+                pass
+    return out
+
+
+def e_show(lits):
+    """literals for one-line descriptions: no backslashes (the lines pass through `echo` of /bin/sh in the tools)"""
+    return ", ".join(L.str_spelling(k, t).replace("\\0", "{NUL}") for k, t in lits)
+
+
+def e_alphabet(kinds, maxlen):
+    return [(k, t) for k in kinds for t in L.str_texts(maxlen)]
+
+
+def e_tuples(quick):
+    """the enumerated tuples, as (name of the bound, list of tuples)"""
+    K = L.STR_KIND_ORDER
+    A = e_alphabet(K, 2)                                        # 5 kinds x 13 texts
+    B = e_alphabet([""], 3)                                     # char literals, 40 texts
+    seen = set()
+    pairs = []
+    for alpha in ([A, B] if quick else [e_alphabet(K, 3)]):
+        for x in alpha:
+            for y in alpha:
+                if (x, y) not in seen:
+                    seen.add((x, y))
+                    pairs.append([x, y])
+    if quick:
+        T = [("", t) for t in L.str_texts(2, ("a", "\0"))]      # 7 texts
+    else:
+        T = e_alphabet(["", "L"], 2)                            # 26 literals
+    triples = [[x, y, z] for x in T for y in T for z in T]
+    singles = [[x] for x in e_alphabet(K, 3)]
+    return singles, pairs, triples
+
+
+E2_CORE9 = ["", "\0", "a", "ab", "a\0", "\0a", "\0b", "a\0a", "a\0b"]   # empty, length-only, prefix, NUL first/last/middle
+E2_CORE5 = ["", "a", "a\0", "\0a", "\0b"]
+
+
+def e2_programs(quick):
+    """{name: [(P, lits, host)]}: packed programs for the configurations of part (d); host 'L' = library unit,
+    'M' = main unit (which also holds the reader)"""
+    K = L.STR_KIND_ORDER
+    tuples = []
+    for k in K:
+        core = E2_CORE9 if (k == "" or not quick) else E2_CORE5
+        tuples += [[(k, x), (k, y)] for x in core for y in core]
+    for t in (E2_CORE5 if quick else E2_CORE9):
+        tuples += [[(k1, t), (k2, t)] for k1 in K for k2 in K if k1 != k2]
+    per = 100
+    progs = {}
+    for i in range(0, len(tuples), per):
+        progs["strlit-%d" % (i // per)] = [("s%d" % j, lits, "LM"[j % 2]) for j, lits in enumerate(tuples[i:i + per])]
+    return progs
+
+
+def e2_sources(units):
+    Lc = "int e2_lib_anchor;\n" + "".join(e_unit_source(P, lits) for P, lits, h in units if h == "L")
+    Mc = e_reader_source([(P, lits) for P, lits, h in units], hosted=set(P for P, lits, h in units if h == "M"))
+    return Lc, Mc
+
+
+def _e2_ref(args):
+    """second oracle: the gcc non-PIC build of the program prints what the model expects"""
+    wd, name, units = args
+    os.makedirs(wd, exist_ok=True)
+    Lc, Mc = e2_sources(units)
+    write(os.path.join(wd, "L.c"), Lc)
+    write(os.path.join(wd, "M.c"), Mc)
+    exp = e_expected([(P, lits) for P, lits, h in units])
+    want = "".join("\n".join(exp[P]) + "\n" for P, lits, h in units)
+    g = d_build("gcc", wd, "nonpic", "g1", gccmode=True)
+    shutil.rmtree(wd, ignore_errors=True)
+    if g[0] == "timeout":
+        return name, "harness-timeout", ""
+    if g[0] != "ok" or g[1] != want:
+        return name, "skip-oracle-disagreement", "gcc nonpic %s: %r vs model %r" % (g[0], g[1][-200:], want[-200:])
+    return name, "ok", want
+
+
+def e2_eval(chibicc, wd, units, cfg):
+    """-> (status, {P: [deviations]} or {'*': [whole-program deviation]}, detail)"""
+    os.makedirs(wd, exist_ok=True)
+    Lc, Mc = e2_sources(units)
+    write(os.path.join(wd, "L.c"), Lc)
+    write(os.path.join(wd, "M.c"), Mc)
+    c = d_build(chibicc, wd, cfg, "c")
+    if c[0] == "timeout":
+        return "harness-timeout", {}, ""
+    if c[0] != "ok":
+        return "ok", {"*": [c[0]]}, c[1]
+    exp = e_expected([(P, lits) for P, lits, h in units])
+    got = e_split(c[1])
+    devs = {}
+    detail = ""
+    for P, lits, h in units:
+        d = e_deviations(P, lits, got.get(P, []), exp[P])
+        if d:
+            devs[P] = d
+            detail = detail or "unit %s: got:\n%s\nexpected:\n%s" % (P, "\n".join(got.get(P, [])), "\n".join(exp[P]))
+    return "ok", devs, detail
+
+
+def _e2_one(args):
+    chibicc, wd, name, units, cfg = args
+    st, devs, detail = e2_eval(chibicc, wd, units, cfg)
+    out = []
+    for n, (P, dl) in enumerate(sorted(devs.items())):
+        # narrow the reproducer (first two deviating units only): does the unit deviate when it is alone in the program?
+        alone = [u for u in units if u[0] == P]
+        keep = units
+        if alone and n < 2:
+            s2, d2, _ = e2_eval(chibicc, wd + "_n", alone, cfg)
+            if s2 == "ok" and (set(d2.get(P, [])) & set(dl) or d2.get("*")):
+                keep = alone
+                if d2.get("*"):
+                    dl = d2["*"]
+            shutil.rmtree(wd + "_n", ignore_errors=True)
+        out.append((P, dl, [list(u) for u in keep]))
+    shutil.rmtree(wd, ignore_errors=True)
+    return name, cfg, st, out, detail
+
+
 # ================================================================================================ replay entry
 REPLAY = "python3 $VERIF/checks/c15.py replay case.json"
 
@@ -897,6 +1337,15 @@ def replay_main(path):
             px(["gcc", "-O0", "-w", "-c", "-o", os.path.join(wd, "drv%d.o" % n), os.path.join(wd, "drv.c")])
             st, dev, detail = c_eval(wd, wd, case["objs"], case["fns"], case["fcommon"])
             got = [dev] if dev else []
+        elif part == "e" and case["mode"] == "alone":
+            r = e_eval(chibicc, wd, [("s0", [tuple(x) for x in case["lits"]])], case.get("pic", False))
+            print(r["s0"][2])
+            got = r["s0"][1]
+        elif part == "e":
+            units = [(P, [tuple(x) for x in lits], h) for P, lits, h in case["units"]]
+            st, devs, detail = e2_eval(chibicc, wd, units, case["config"])
+            print(detail)
+            got = devs.get(case["unit"], []) + devs.get("*", [])
         else:
             Lc, Mc = d_programs()[case["program"]]
             r = _d_one((chibicc, wd, case["program"], Lc, Mc, case["config"]))
@@ -949,6 +1398,24 @@ def run(ctx):
                         cases.append({"part": "a", "kind": "obj", "seq": list(seq), "use": use, "fcommon": fc, "type": tk})
                         if fc and tk == "int" and n <= 2 and use != "mid":
                             cases.append(dict(cases[-1], pic=True))
+        # object types completed after the declaration: int v[] (every mask of incomplete/complete declarations with
+        # at least one incomplete one) and struct S completed after the last declaration
+        if n <= 2 or not quick:
+            for seq in itertools.product(FILE_FORMS, repeat=n):
+                if not L.obj_model(seq)["valid"]:
+                    continue
+                for inc in itertools.product("ic", repeat=n):
+                    if "i" not in inc or not L.obj_incomplete_array(seq, inc)[0]:
+                        continue
+                    for use in (["end"] if quick and n > 1 else ["none", "end"] + (["mid"] if n > 1 else [])):
+                        for fc in (True, False):
+                            cases.append({"part": "a", "kind": "obj", "seq": list(seq), "use": use, "fcommon": fc, "type": "a3",
+                                          "inc": "".join(inc)})
+            for seq in itertools.product(SINC_FORMS, repeat=n):
+                if L.obj_model(seq)["valid"]:
+                    for use in ("none", "end"):
+                        for fc in (True, False):
+                            cases.append({"part": "a", "kind": "obj", "seq": list(seq), "use": use, "fcommon": fc, "type": "sinc"})
         fuses = ["none", "call", "init", "slinit"] + (["mid-call", "mid-init"] if n > 1 else [])
         for seq in itertools.product(L.FN_ORDER, repeat=n):
             if not L.fn_model(seq)["valid"]:
@@ -984,7 +1451,7 @@ def run(ctx):
                               "declaration sequence %s (use=%s, %s%s, type=%s): %s" % (
                                   " ; ".join(case["seq"]), case["use"], "-fcommon" if case["fcommon"] else "-fno-common",
                                   " -fPIC" if case.get("pic") else "",
-                                  case.get("type", "-"), dev),
+                                  case.get("type", "-") + ("/" + case["inc"] if case.get("inc") else ""), dev),
                               files=files, replay=REPLAY)
     if a_judged < 100 or len(a_classes) < 10:
         raise core.HarnessError("part (a) degenerate: %d judged cases, %d classes" % (a_judged, len(a_classes)))
@@ -1144,9 +1611,93 @@ def run(ctx):
         done.append("(d) configurations")
 
     phase["d"] = round(time.time() - ctx.t0, 1)
+
+    # ------------------------------------------------------------------ (e) string-literal objects
+    if ctx.out_of_time(reserve=90):
+        ctx.incomplete("deadline: finished %s; string-literal objects not run" % done)
+    else:
+        singles, pairs, triples = e_tuples(quick)
+        GRP = 32
+        groups = [(g, False) for g in core.chunks(singles + pairs + triples, GRP)]
+        groups += [(g, True) for g in core.chunks(singles, GRP)]                # every literal once as -fPIC object in a PIE
+        batches = shard(ctx, groups, 4)
+        res = core.pmap(_e_batch, [(ctx.chibicc, os.path.join(ctx.work, "e%d" % i), b) for i, b in enumerate(batches)])
+        e_judged = 0
+        e_classes = set()
+        for batch in res:
+            for lits, pic, st, devs, detail in batch:
+                if not tally(st):
+                    if st in ("skip-oracle-disagreement", "skip-ref-rejected") and len(notes) < 40:
+                        notes.append("e %s: %s" % (lits, detail[:200]))
+                    continue
+                e_judged += 1
+                rel, kinds = L.str_tuple_class(lits)
+                e_classes.add((rel, kinds))
+                if len(lits) > 1:
+                    counts["distinct_nontrivial"] += 1
+                if e_judged % 2999 == 1:
+                    ctx.sample({"part": "e", "literals": [L.str_spelling(k, t) for k, t in lits], "class": [rel, kinds]})
+                for dev in devs:
+                    case = {"part": "e", "mode": "alone", "lits": [list(x) for x in lits], "pic": pic, "deviation": dev}
+                    ctx.violation("C15|e-strlit|%s|%s%s|%s" % (rel, kinds, "|fPIC" if pic else "", dev),
+                                  "string literals %s alone in one translation unit%s: %s\n%s" % (
+                                      e_show(lits), " (-fPIC)" if pic else "", dev, detail[:1500]),
+                                  files={"case.json": json.dumps(case), "unit.c": e_unit_source("s0", lits),
+                                         "reader.c": e_reader_source([("s0", lits)]), "detail.txt": detail}, replay=REPLAY)
+        if e_judged < (len(singles) + len(pairs) + len(triples)) // 2 or len(e_classes) < 12:
+            raise core.HarnessError("part (e) degenerate: %d judged tuples, %d classes; %s" % (e_judged, len(e_classes), notes[-3:]))
+        ctx.cover(e_singles=len(singles), e_pairs=len(pairs), e_triples=len(triples), e_judged_alone=e_judged,
+                  e_relation_classes=len(e_classes), e_contexts=E_CONTEXTS)
+        done.append("(e) string literals alone in a unit")
+        phase["e1"] = round(time.time() - ctx.t0, 1)
+        # packed programs in every configuration of part (d)
+        progs = e2_programs(quick)
+        refs = {}
+        for name, st, want in core.pmap(_e2_ref, [(os.path.join(ctx.work, "e2r_" + n), n, progs[n]) for n in sorted(progs)]):
+            if st == "ok":
+                refs[name] = want
+            else:
+                tally(st)
+                notes.append("e2 %s: %s" % (name, want[:300]))
+        jobs = [(ctx.chibicc, os.path.join(ctx.work, "e2_%s_%s" % (n, cfg.replace("+", "_"))), n, progs[n], cfg)
+                for n in sorted(refs) for cfg in D_CONFIGS]
+        e2_judged = 0
+        e2_devs = {}                 # (relation, kinds, among-others, deviation) -> [(cfg, name, P, lits, keep, detail)]
+        for name, cfg, st, out, detail in core.pmap(_e2_one, jobs):
+            if not tally(st):
+                continue
+            e2_judged += 1
+            counts["distinct_nontrivial"] += 1
+            for P, dl, keep in out:
+                lits = [tuple(x) for x in dict((u[0], u[1]) for u in progs[name]).get(P, [])]
+                rel, kinds = L.str_tuple_class(lits) if lits else ("program", "-")
+                for dev in dl:
+                    e2_devs.setdefault((rel, kinds, len(keep) != 1, dev), []).append((cfg, name, P, lits, keep, detail))
+        for (rel, kinds, among, dev), hits in sorted(e2_devs.items()):
+            # a deviation seen in every configuration has one root cause that does not depend on the configuration
+            cfgs = sorted(set(h[0] for h in hits))
+            groups = [("every-configuration", hits[:1])] if set(cfgs) == set(D_CONFIGS) else \
+                     [(c, [h for h in hits if h[0] == c][:1]) for c in cfgs]
+            for label, hs in groups:
+                cfg, name, P, lits, keep, detail = hs[0]
+                case = {"part": "e", "mode": "config", "config": cfg, "units": keep, "unit": P, "deviation": dev}
+                Lc, Mc = e2_sources([tuple(u) for u in keep])
+                ctx.violation("C15|e-strlit-config|%s|%s|%s%s|%s" % (rel, kinds, label, ",among-other-literals" if among else "", dev),
+                              "string literals %s in program %s (%d units), configuration %s%s: %s\n%s" % (
+                                  e_show(lits), name, len(keep), cfg, " (and every other one)" if label != cfg else "", dev, detail[:1500]),
+                              files={"case.json": json.dumps(case), "L.c": Lc, "M.c": Mc, "detail.txt": detail}, replay=REPLAY)
+        if e2_judged < len(progs) * len(D_CONFIGS) // 2:
+            raise core.HarnessError("part (e) configurations degenerate: %d judged; %s" % (e2_judged, notes[-3:]))
+        ctx.cover(e_config_programs=len(progs), e_config_units=sum(len(v) for v in progs.values()), e_config_judged=e2_judged)
+        done.append("(e) string literals x configurations")
+    phase["e"] = round(time.time() - ctx.t0, 1)
     ctx.cover(bounds_completed=done, oracle_notes=notes, phase_end_seconds=phase, **counts)
     ctx.cover(rule="non-trivial = (a) sequence of >= 2 declarations or one that defines; (b) graph with >= 1 edge and >= 1 root; "
-                   "(c) set whose units differ or that the model calls ill-formed; (d) every program x configuration. "
+                   "(c) set whose units differ or that the model calls ill-formed; (d) every program x configuration; "
+                   "(e) every tuple of >= 2 string literals over the alphabet {'',u8,L,u,U} x texts of length <= 3 over {a,b,NUL} "
+                   "(pairs: quick 5 kinds x length <= 2 plus char x length <= 3, thorough all 200 literals; triples: quick 7 char "
+                   "literals over {a,NUL}, thorough {'',L} x length <= 2) alone in a unit x all contexts of e_contexts, and every "
+                   "packed program x configuration; judged on content bytes up to sizeof, never on address identity. "
                    "Oracle: constraints from models/c15_linkage.py (C11 6.2.2, 6.9.2, 6.7.4, 6.7.1 + -fcommon/-fno-common), "
                    "graph reachability, model-predicted program output confirmed by a gcc -std=c11 -O0 twin")
     ctx.assume("symbol order, local label names, section names (only the section KIND from its flags/type is used) and whether a "
@@ -1154,6 +1705,8 @@ def run(ctx):
     ctx.assume("gcc 12 -std=c11 -pedantic-errors decides validity of a generated unit together with the model; the system "
                "linker (GNU ld via gcc / via chibicc's own driver) decides link success")
     ctx.assume("liveness graphs on 4 nodes (thorough) are enumerated without self-loops; self-loops are exhaustive for n <= 3")
+    ctx.assume("string literals: x86-64 SysV element types (wchar_t = int, char16_t = unsigned short, char32_t = unsigned int, "
+               "little endian); two literals may share or overlap storage whenever their bytes agree over the common length")
     if counts["harness_timeouts"]:
         ctx.incomplete("%d cases hit the per-process wall limit and were not judged" % counts["harness_timeouts"])
 
